@@ -181,7 +181,12 @@ func PreferredGoType(dt datatype.DataType) (reflect.Type, error) {
 		if err != nil {
 			return nil, err
 		}
-		return reflect.MapOf(ensureNillable(keyType), ensureNillable(valueType)), nil
+		keyType = ensureNillable(keyType)
+		if !keyType.Comparable() {
+			// e.g. map<blob,int>: []byte cannot be a Go map key
+			return nil, errCannotFindGoType(dt)
+		}
+		return reflect.MapOf(keyType, ensureNillable(valueType)), nil
 	}
 	return nil, errCannotFindGoType(dt)
 }
